@@ -609,7 +609,7 @@ fn c01_sweep(input: &Input, obs: &mut Obs) -> Result<(), Fail> {
 fn c01_plan(tier: Tier) -> Vec<Job> {
     let q = tier == Tier::Quick;
     vec![
-        Job { sub: "sched", kind: JobKind::Pbt { cases: if q { 20_000 } else { 400_000 }, max_len: 1200 }, smallbuf: false },
+        Job { sub: "sched", kind: JobKind::Pbt { cases: if q { 100_000 } else { 2_000_000 }, max_len: 1200 }, smallbuf: false },
         Job { sub: "cut1", kind: JobKind::Enum { f: c01_cut1_enum, bound: "grammar streams #0..N (<=2600 bytes) x every single cut position x {no fault, EAGAIN/EINTR at the cut (1/3 of positions)}, B=1024" }, smallbuf: false },
         Job { sub: "sweep", kind: JobKind::Enum { f: sweep_enum, bound: "5 templates x every pad length in the stated ranges x fixed read sizes, B=1024" }, smallbuf: false },
         Job { sub: "e2_32", kind: JobKind::Enum { f: small_cut2_enum, bound: "B=32: all streams of the piece family (5 request lines x all header sequences of length <=2 (quick) / <=3 (thorough) over 12 header pieces, 64 pipelined pairs) x every pair of cut positions x every single EAGAIN/EINTR placement" }, smallbuf: true },
@@ -751,7 +751,7 @@ fn c02_edit_enum(_tier: Tier, shard: u64, nshards: u64, f: &mut dyn FnMut(&[u64]
 fn c02_plan(tier: Tier) -> Vec<Job> {
     let q = tier == Tier::Quick;
     vec![
-        Job { sub: "grammar", kind: JobKind::Pbt { cases: if q { 60_000 } else { 2_000_000 }, max_len: 1000 }, smallbuf: false },
+        Job { sub: "grammar", kind: JobKind::Pbt { cases: if q { 400_000 } else { 6_000_000 }, max_len: 1000 }, smallbuf: false },
         Job { sub: "edit", kind: JobKind::Enum { f: c02_edit_enum, bound: "4 canonical request streams x every byte position x {delete, replace by each of 14 symbols, insert each of 14 symbols}" }, smallbuf: false },
     ]
 }
@@ -988,7 +988,7 @@ pub fn c04_conn_subs() -> Vec<(&'static str, SubFn)> {
 pub fn c04_conn_jobs(tier: Tier) -> Vec<Job> {
     let q = tier == Tier::Quick;
     vec![
-        Job { sub: "limits", kind: JobKind::Pbt { cases: if q { 60_000 } else { 2_000_000 }, max_len: 400 }, smallbuf: false },
+        Job { sub: "limits", kind: JobKind::Pbt { cases: if q { 300_000 } else { 6_000_000 }, max_len: 400 }, smallbuf: false },
         Job { sub: "lines", kind: JobKind::Enum { f: c04_lines_enum, bound: "request/header line of every length 1000..1100 (incl. CRLF) x start offset 0..1100 (quick: step 13; thorough: every offset) x read sizes; B=32 build: lengths 20..40 x offsets 0..80" }, smallbuf: false },
         Job { sub: "lines", kind: JobKind::Enum { f: c04_lines_enum, bound: "B=32: line lengths 20..40 x offsets 0..80" }, smallbuf: true },
         Job { sub: "e2_32", kind: JobKind::Enum { f: small_cut2_enum, bound: "B=32 piece family x all cut pairs (size-related mismatches only)" }, smallbuf: true },
@@ -1097,7 +1097,7 @@ pub fn c13_conn_subs() -> Vec<(&'static str, SubFn)> {
 pub fn c13_conn_jobs(tier: Tier) -> Vec<Job> {
     let q = tier == Tier::Quick;
     vec![
-        Job { sub: "expect", kind: JobKind::Pbt { cases: if q { 50_000 } else { 1_500_000 }, max_len: 900 }, smallbuf: false },
+        Job { sub: "expect", kind: JobKind::Pbt { cases: if q { 200_000 } else { 4_000_000 }, max_len: 900 }, smallbuf: false },
         Job { sub: "sweep", kind: JobKind::Enum { f: c13_sweep_enum, bound: "Expect template x every pad length 0..1100 x fixed read sizes" }, smallbuf: false },
         Job { sub: "e2_32", kind: JobKind::Enum { f: small_cut2_enum, bound: "B=32 piece family (incl. the Expect piece) x all cut pairs" }, smallbuf: true },
     ]
